@@ -24,6 +24,7 @@ type c10Row struct {
 	A  *int64
 	B  int64
 	S  string
+	P  int64 `sql:",implicitnull"` // C07: the zero value is stored as NULL, and a filter on 0 selects the NULLs
 }
 
 // c10RowJ: C10's table has a JSON column on top (C07 shares c10Row and its four columns)
@@ -43,7 +44,7 @@ type c10BadValuer struct{}
 
 func (c10BadValuer) Value() (driver.Value, error) { return nil, errors.New("c10: value rejected") }
 
-var c10ColID = map[string]int{"id": 0, "a": 1, "b": 2, "s": 3, "j": 4}
+var c10ColID = map[string]int{"id": 0, "a": 1, "b": 2, "s": 3, "j": 4, "p": 5}
 
 // c10Val: a filter value: payload and the Go representation it travels in
 type c10Val struct {
